@@ -1099,6 +1099,16 @@ def check_C20(history, compatible=None):
                 if key_ in sp and sp[key_] != value:
                     out.append(V("C20", "parameter-lost", f"step {step} was executed without the parameter given for it", key=key_,
                                  want=value, got=sp.get(key_)))
+        # ... and nothing of another step's private parameters (create, collect and clean work with their own state
+        # parameters, which must be gone again afterwards, also when one of their tests failed)
+        if step not in ("create", "collect", "clean"):
+            given = set(scen.get("step_params", {}))
+            for ex in execs:
+                foreign = sorted(k for k in ex["start"].get("step_params", {})
+                                 if re.match(r"^(check|get|set|unset|push|pop)_(state|mode)_(images|vms)$", k) and k not in given)
+                if foreign:
+                    out.append(V("C20", "foreign-parameters", f"step {step} was executed with state parameters of another step",
+                                 step=step, keys=foreign, chain=chain))
         # outcome of the step
         by_name = {}
         for ex in execs:
